@@ -137,7 +137,7 @@ func (ws *wordState) unit(s sym) wunit {
 				u.POC = 1
 			}
 			u.DTS = dt + h265bLag[u.POC]
-		} else if t.Kind == "h264b" {
+		} else if isH264B(t.Kind) {
 			// frames are written in decode order; u.DTS is the presentation time handed to WriteH264
 			T := s.T
 			if !ws.begun[T] {
@@ -511,7 +511,7 @@ func e1Explore(c *vh.Ctx, sc e1Scen) {
 		if r.pruned {
 			c.Count("words_ended_by_underivable_dts", 1)
 		}
-		if k := sc.Cfg.Tracks[sc.Cfg.leading()].Kind; k == "h264b" || k == "h265b" {
+		if k := sc.Cfg.Tracks[sc.Cfg.leading()].Kind; isH264B(k) || k == "h265b" {
 			for _, us := range r.model.emitted {
 				for _, u := range us {
 					if u.ptsOff != 0 {
